@@ -161,16 +161,15 @@ pub fn directed() -> Vec<(&'static str, Scn)> {
                 "c2s": {"total": 5, "wchunks": [5], "rbufs": [100]},
                 "s2c": {"total": 393216, "wchunks": [65536], "rbufs": [8192], "read_pause": 3}, "sched": {"explicit": []}})),
         ),
-        // long round trip (holds up to 8 rounds, no drop): the server has spent
-        // SYN-ACK retransmits when the client's FIN overtakes the handshake ACK
-        // and completes the handshake; those attempts must not count against the
-        // server's first data flight
+        // uniform link latency of 5 rounds (round trip 11 rounds) and one drop, the
+        // handshake ACK: the server has spent SYN-ACK retransmits when the
+        // client's first data segment completes the handshake; those attempts
+        // must not count against the server's first data flight
         (
-            "fin-completes-handshake-after-synack-retx",
-            scn(json!({"cfg": {"recv_cap": 1}, "c2s": {"total": 0, "rbufs": [1]},
-                "s2c": {"total": 1, "wchunks": [1], "rbufs": [1]},
-                "sched": {"explicit": ["s2c:SYNACK#0:hold6", "s2c:SYNACK#1:hold7", "s2c:SYNACK#2:hold6", "c2s:HSACK#0:hold1",
-                    "s2c:DATA#0:hold3", "s2c:DATA#1:hold8", "c2s:ACK#2:hold6", "c2s:WINUPD#0:hold7", "c2s:ACK#3:hold6", "c2s:ACK#4:hold5"]}})),
+            "data-completes-handshake-after-synack-retx",
+            scn(json!({"cfg": {}, "c2s": {"total": 100, "wchunks": [100], "rbufs": [4096]},
+                "s2c": {"total": 100, "wchunks": [100], "rbufs": [4096]},
+                "latency": 5, "sched": {"explicit": ["c2s:HSACK#0:drop"]}})),
         ),
     ]
 }
@@ -241,6 +240,7 @@ pub fn dfs_variants(ctx: &Ctx) -> Vec<DfsSpec> {
                             s2c: mk(*b, *delay),
                             sched: Sched::Explicit(vec![]),
                             order: Order::Emission,
+                            latency: 0,
                         },
                         start,
                         depth,
@@ -272,6 +272,7 @@ pub fn dfs_variants(ctx: &Ctx) -> Vec<DfsSpec> {
                     s2c: mk(b),
                     sched: Sched::Explicit(vec![]),
                     order: Order::Emission,
+                    latency: 0,
                 },
                 start,
                 depth: ctx.pick(9, 12),
